@@ -8,6 +8,7 @@ pub mod p20;
 pub mod pcli;
 pub mod pexpr;
 pub mod pglob;
+pub mod pregex;
 pub mod pwalk;
 
 /// One property's binding to the real code.
@@ -35,6 +36,7 @@ pub fn get(name: &str) -> Option<Box<dyn Prop>> {
         "C11" => Some(Box::new(pexpr::PExpr::new("C11"))),
         "C11o" => Some(Box::new(pcli::PCli::default())),
         "C12" => Some(Box::new(pglob::PGlob::default())),
+        "C17" => Some(Box::new(pregex::PRegex::default())),
         "C04" => Some(Box::new(p04::P04::default())),
         "C05" => Some(Box::new(p05::P05::default())),
         "C19" => Some(Box::new(p19::P19::default())),
